@@ -8,8 +8,8 @@ LEVEL = "exploration"
 RULE = ("cases = random m x n sparse matrices in four precisions written by an independent Python writer as well-formed Harwell-Boeing, "
         "Rutherford-Boeing and ?readmt column-list files: every generated edit descriptor (kIw), (kEw.d), (kDw.d), (kFw.d), (1PkEw.d), upper "
         "or lower case, line width <= 80, fields that touch the last column, multi-line sections, optional right-hand-side header line and "
-        "data (HB), pattern-only files, complex values as (re,im) pairs, values exactly representable so that 'equal to the printed "
-        "decimal' is decidable; symmetric/Hermitian/skew MXTYPEs stored as a triangle (kept as a listed finding: the readers do not "
+        "data (HB), pattern-only files, complex values as (re,im) pairs, values either short dyadic numbers or full-mantissa numbers printed with 18 significant "
+        "digits (the expected value is what the printed field denotes); symmetric/Hermitian/skew MXTYPEs stored as a triangle (kept as a listed finding: the readers do not "
         "expand). The file is fed through stdin of the forked child. oracle = round-trip: dimensions, nnz, column pointers and the entries "
         "(row, value) column by column equal the generated matrix, values bit-equal to strtod of the printed field (rounded to float for "
         "single). non-trivial = some section spans >= 2 lines and (a field touches column 80, or D exponents, or an RHS header line); "
@@ -56,12 +56,17 @@ def c20_case(draw, nmax=20):
     dens = draw(st.sampled_from([0.1, 0.3, 0.7]))
     cols = []
     q = draw(st.sampled_from([0, 2, 4]))
+    # "fine" values: full-mantissa numbers printed with 18 significant digits (E/D descriptors only), so that a reader that keeps
+    # fewer bits than the precision it returns is seen; the expected value is what the printed field itself denotes
+    fine = draw(st.booleans())
     for j in range(n):
         rows = [i for i in range(m) if rng.random() < dens and (not sym or i >= j)]
         if draw(st.booleans()): rng.shuffle(rows)
         ents = []
         for i in rows:
             a = float(rng.integers(-4000, 4001)) / (2 ** q); b = float(rng.integers(-4000, 4001)) / (2 ** q) if cplx else 0.0
+            if fine:
+                a = float(rng.standard_normal() * 2.0 ** int(rng.integers(-20, 21))); b = float(rng.standard_normal() * 2.0 ** int(rng.integers(-20, 21))) if cplx else 0.0
             ents.append((int(i), a, b))
         cols.append(ents)
     nnz = sum(len(c) for c in cols)
@@ -72,7 +77,9 @@ def c20_case(draw, nmax=20):
     pw = draw(st.integers(len(str(maxptr)) + 1, 14)); pk = draw(st.integers(1, max(1, 80 // pw)))
     iw = draw(st.integers(len(str(max(m, 1))) + 1, 10)); ik = draw(st.integers(1, max(1, 80 // iw)))
     kind = draw(st.sampled_from(["E", "E", "D", "F", "PE"]))
+    if fine and kind == "F": kind = "E"
     d = draw(st.integers(8, 17)) if kind != "F" else draw(st.integers(4, 8))
+    if fine: d = 17
     vw = draw(st.integers(d + 9, min(40, d + 14))) if kind != "F" else draw(st.integers(d + 8, d + 14))
     vk = draw(st.integers(1, max(1, 80 // vw)))
     touch80 = draw(st.booleans())
@@ -131,6 +138,8 @@ def c20_case(draw, nmax=20):
     exp = []
     for j, c in enumerate(cols):
         for (i, a, b) in c:
+            if fine:      # the value a reader must return is the one the printed field denotes
+                a = float(fmt_real(a, "E", 0, 17 if fmt == "mt" else d)); b = float(fmt_real(b, "E", 0, 17 if fmt == "mt" else d)) if cplx else 0.0
             exp.append((i, j, float(np.float32(a)) if single else a, (float(np.float32(b)) if single else b) if cplx else 0.0))
     if sym:
         full = {}
@@ -141,7 +150,7 @@ def c20_case(draw, nmax=20):
     s = {"prec": prec, "format": fmt, "m": m, "n": n, "mxtype": mxtype, "pattern_only": 1 if pattern_only else 0}
     multi = max(len(plines), len(ilines), len(vlines)) >= 2
     return {"set": s, "entries": exp, "blob": text.encode(), "fmt": fmt, "kind": kind, "rhs": rhs, "sym": sym, "multi": multi,
-            "touch80": (vk * vw == 80 or pk * pw == 80 or ik * iw == 80), "lower": lower}
+            "touch80": (vk * vw == 80 or pk * pw == 80 or ik * iw == 80), "lower": lower, "fine": fine}
 
 
 def strategy(tier):
@@ -158,5 +167,6 @@ def classify(case, v):
     if case["touch80"]: labs.append("field_touches_col80")
     if case["lower"]: labs.append("lowercase")
     if case["multi"]: labs.append("multi_line_section")
+    if case.get("fine"): labs.append("full_mantissa_values")
     if v.get("v") == "fail": labs.append("sig=" + v.get("sig", ""))
     return labs
